@@ -1,6 +1,7 @@
 # C10 — block processing never panics for user histories or accepted policy settings
 LEAN_MODULES = ["Sif.Props.C10"]
 EXTRACT = [{"group": "policy", "passes": ["validate"]}]
+CHK_PREDS = ["c10."]
 FAMILIES = [
     {"name": "policy", "family": "policy", "group": "policy", "driver": "drv_policy",
      "n_quick": 1200, "n_thorough": 12000, "seeds_thorough": 2},
@@ -9,23 +10,69 @@ FAMILIES = [
     {"name": "confine", "family": "confine", "group": "policy", "driver": "drv_policy",
      "n_quick": 300, "n_thorough": 3000, "seeds_thorough": 2},
 ]
-RULE = ("policy: per scenario a fresh chain (2-3 pools, providers, a baseline of valid policies); one of the ten AMM admin "
-        "messages with extreme fields (uint64/int64 near 2^63/2^64, 0, Uint up to 2^256-1, nil optional fields, negative/huge/"
-        "unparsable decimals, thresholds around the current maximum) through the real ValidateBasic + message server; then >= 14 "
-        "consecutive blocks plus the boundary heights of every configured period, each with user traffic, every hook under recover(); "
-        "non-trivial = distinct bb/eb/adm line")
+RULE = ("policy (L1, family 2): 11 directed defect inputs, then per scenario a fresh chain (2-3 pools, providers, a baseline of safe "
+        "policies) and ONE of the ten AMM admin messages with extreme fields (uint64/int64 at 0, 1, 2^63-1, 2^63, 2^64-1; Uint up to "
+        "2^256-1; nil optional fields; negative / huge / unparsable decimals; thresholds around the stored maximum) through the real "
+        "ValidateBasic + message server; then >= 14 consecutive blocks plus the boundary heights of every configured period, each with "
+        "user traffic, every block hook (epochs, mint, dispensation, margin, clp begin/end) under recover(); lines bb/eb = state in, "
+        "state out or panic of the clp hooks (model must reproduce), adm = one-directional acceptance + resulting state, inv/powenv = "
+        "the theorems' invariant / math.Pow assumption evaluated on the implementation's state. "
+        "userhist (L1, family 1): adversarial permissionless clp/margin/bank/dispensation/ethbridge messages (amounts 0, 1, 2^64+-1, 2^128, "
+        "dust, near pool depths) under policies inside the envelope, all hooks under recover() after every block. "
+        "confine (L2, family 1): signed transactions through the full app; a panicking user message vs a plainly failing one on twin "
+        "chains: error result and equal app hashes. non-trivial = distinct bb/eb/adm/powenv/confined line")
 TRUSTED_BASE = [
     "Lean 4.33.0 kernel; axioms propext, Classical.choice, Quot.sound (audited per theorem on every run)",
-    "hand-written Lean model of clp BeginBlocker/EndBlocker arithmetic (Sif/Model/Hooks*.lean), tied by differential execution (state in, state out, panicked?) against the real hooks",
+    "hand-written Lean model of the clp BeginBlocker/EndBlocker arithmetic (Sif/Model/Hooks.lean, HooksEnd.lean) and of what the "
+    "accepted admin messages write (Sif/Model/Validate.lean `apply…`), tied by differential execution (state in, state out, panicked?) "
+    "against the real hooks and handlers",
+    "extractor pass `validate` (go/ast walk of ValidateBasic + handler bodies: reject-if / guard / range / symbolic bindings; anything "
+    "else is a barrier) and the evaluator `evalTerm/evalCond` giving the clause AST its meaning (int64/uint64 wrap, Dec raw integers)",
     "Go harness + line protocol + drv_policy parser",
-    "math/big, cosmos-sdk sdk.Uint/sdk.Dec (modelled), x/bank mint/send/burn (not modelled: assumed not to panic inside the envelope)",
+    "math/big, cosmos-sdk sdk.Uint/sdk.Dec/sdk.Int (modelled as in Sif/Num/Basic.lean, exercised by the correspondence)",
+    "x/bank mint/send/burn inside the EndBlocker: not modelled, assumed to return errors rather than panic inside the envelope (supply < 2^200)",
+    "baseapp per-transaction panic recovery and cache discard (exercised by the L2 `confine` family, not modelled)",
     "math.Pow / %.18f / NewDecFromStr in PolicyStart: environment value",
 ]
-ASSUMPTIONS = []
-UNPROVED = []
+ASSUMPTIONS = [
+    "PowAccurateP: the block rate PolicyStart derives with math.Pow is >= 0 and (1+rate+1e-18)^numBlocks <= 2*(1+gov)^numEpochs "
+    "(explicit decidable hypothesis of EnvOKP; evaluated by the harness on every block rate the real code derives: `powenv` lines)",
+    "heights 0 < h < 2^62 (EnvOKP); pool balance + liabilities < 2^256 (PoolsOKP)",
+    "UpdatePmtpParams: the inter-policy rate at submission is <= 2^250*10^-18 (state the message does not control)",
+    "EndBlocker envelope EInvP: accumulated block distribution < 2^254, native depth of every pool <= 2^200 and their sum <= 2^200, "
+    "RewardPeriodNativeDistributed <= 2^200, provider units <= pool units, providers => pool units >= 1 (C02 invariants; known finding "
+    "F17 can break them), stored periods as validated",
+    "message fields are in their Go types' ranges (int64 / uint64 / 256-bit Uint)",
+]
+UNPROVED = [
+    "family 1 as an induction over user histories (hooks_total_userStatement): NOT proved — the permissionless message handlers are not "
+    "part of this property's model; proved instead: in every state satisfying the explicit invariants both clp hooks return normally "
+    "(hooks_total_user_partial, beginBlock_total, endBlock_total, policy_period_total). Preservation of PmtpInvP by user messages rests on "
+    "code reading (no user message writes PMTP state); `cur <= max` under swaps is modelled by userMove, not proved against "
+    "MustUpdateLiquidityProtectionThreshold; the pool conjuncts of EInvP are C01/C02 invariants not proved here",
+    "EInvP is not shown to be re-established by the EndBlocker itself (rewards grow pool balances): it is re-assumed per block",
+    "hooks outside the model — epochs BeginBlocker -> clp AfterEpochEnd (F16), margin BeginBlocker (F21), dispensation BeginBlocker, "
+    "cosmos x/mint BeginBlocker (F19): tested only (chk c10.hook / c10.safe on the real keepers), no theorem",
+    "confinement of a panicking user message (error result, state unchanged): tested at L2 on twin chains only",
+    "UpdateRewardsParams, UpdateSwapFeeParams, SetSymmetryThreshold, UpdateStakingRewardParams: no safety theorem (their parameters are "
+    "read by user-message paths or by the unmodelled hooks); the repaired F19 clauses are opaque to the extractor",
+    "x/bank calls inside the EndBlocker are not modelled (assumed non-panicking, all sends succeed)",
+]
 MANIFEST = {
-    "text": "",
-    "note": "",
+    "text": "Lean 4 theorems over an operation-by-operation model of the clp BeginBlocker (liquidity-protection replenishment, PMTP "
+            "PolicyStart/PolicyCalculations incl. the square-and-multiply loop of sdk.Dec.Power, counters, PolicyRun) and EndBlocker "
+            "(provider distribution, depth rewards): under explicit decidable invariants the hooks return normally for every state, "
+            "rate, period length and history of blocks; every setting accepted by the (repaired) validation of ModifyPmtpRates, "
+            "UpdatePmtpParams, ModifyLiquidityProtectionRates, UpdateLiquidityProtectionParams, AddRewardPeriod and "
+            "AddProviderDistributionPeriod re-establishes those invariants. The validation the code really has is regenerated from the "
+            "source as a clause AST on every run and proved (decide) to contain every clause the theorems use; the hook model is tied to "
+            "the real keepers by differential execution; the property's own predicate (accepted => no hook panic; user history => no "
+            "hook panic; panicking tx confined) is judged on the implementation's observations.",
+    "note": "Proved: clp hooks only, under stated invariants/envelope (see ASSUMPTIONS). Tested, not proved: family 1 as a history "
+            "induction, the epochs/margin/dispensation/mint hooks, L2 confinement, bank calls (see UNPROVED). Trusted: Lean kernel, the "
+            "hand-written model (tied by correspondence only), the validate extractor + clause evaluator, harness/driver, sdk number "
+            "types, baseapp, math.Pow accuracy (assumption, checked on observed values). Defects reproduced and repaired by this check: "
+            "F3 F4 F5 F12 F13 (design), F16 (lead), F18 F19 F21 (found here).",
     "technique": "Lean 4 proof + regenerated validation facts + differential correspondence (model vs real Go)",
     "design_ref": "4/C10",
 }
